@@ -9,47 +9,47 @@ typedef compact_theta_sketch cts;
 typedef theta_union tun;
 typedef theta_intersection tin;
 
-W uint16_t w_seed_hash(uint64_t seed) { return compute_seed_hash(seed); }
+WRAP uint16_t w_seed_hash(uint64_t seed) { return compute_seed_hash(seed); }
 // compact sketch from parts (the library's own 5-argument constructor, used by every set operation to build results)
-W cts* w_cts_make(uint8_t is_empty, uint8_t is_ordered, uint16_t seed_hash, uint64_t theta, const uint64_t* e, uint32_t n) {
+WRAP cts* w_cts_make(uint8_t is_empty, uint8_t is_ordered, uint16_t seed_hash, uint64_t theta, const uint64_t* e, uint32_t n) {
   std::vector<uint64_t> v; v.reserve(n); for (uint32_t i = 0; i < n; i++) v.push_back(e[i]);
   return new cts(is_empty, is_ordered, seed_hash, theta, std::move(v));
 }
-W void w_cts_delete(cts* c) { delete c; }
-W uint64_t w_cts_theta(const cts* c) { return c->get_theta64(); }
-W uint32_t w_cts_num(const cts* c) { return c->get_num_retained(); }
-W uint8_t w_cts_is_empty(const cts* c) { return c->is_empty(); }
-W uint8_t w_cts_is_ordered(const cts* c) { return c->is_ordered(); }
-W uint16_t w_cts_seed_hash(const cts* c) { return c->get_seed_hash(); }
-W uint64_t w_cts_entry(const cts* c, uint32_t i) { return c->entries_[i]; }
-W uint32_t w_cts_entries(const cts* c, uint64_t* out, uint32_t cap) { uint32_t n = 0; for (auto h : *c) { if (n < cap) out[n] = h; ++n; } return n; }
+WRAP void w_cts_delete(cts* c) { delete c; }
+WRAP uint64_t w_cts_theta(const cts* c) { return c->get_theta64(); }
+WRAP uint32_t w_cts_num(const cts* c) { return c->get_num_retained(); }
+WRAP uint8_t w_cts_is_empty(const cts* c) { return c->is_empty(); }
+WRAP uint8_t w_cts_is_ordered(const cts* c) { return c->is_ordered(); }
+WRAP uint16_t w_cts_seed_hash(const cts* c) { return c->get_seed_hash(); }
+WRAP uint64_t w_cts_entry(const cts* c, uint32_t i) { return c->entries_[i]; }
+WRAP uint32_t w_cts_entries(const cts* c, uint64_t* out, uint32_t cap) { uint32_t n = 0; for (auto h : *c) { if (n < cap) out[n] = h; ++n; } return n; }
 // update sketch operand by state injection (unit level, as in C01)
-W uts* w_uts_new(uint8_t lg_cur, uint8_t lg_nom, uint64_t theta, uint64_t seed) { return new uts(lg_cur, lg_nom, resize_factor::X1, 1.0f, theta, seed, std::allocator<uint64_t>()); }
-W void w_uts_delete(uts* s) { delete s; }
-W void w_uts_set_slot(uts* s, uint32_t i, uint64_t v) { s->table_.entries_[i] = v; }
-W void w_uts_set_num(uts* s, uint32_t n) { s->table_.num_entries_ = n; }
-W void w_uts_set_empty(uts* s, uint8_t e) { s->table_.is_empty_ = e; }
-W uint32_t w_uts_find(const uts* s, uint64_t key, int* found) { auto r = s->table_.find(key); *found = r.second; return (uint32_t)(r.first - s->table_.entries_); }
+WRAP uts* w_uts_new(uint8_t lg_cur, uint8_t lg_nom, uint64_t theta, uint64_t seed) { return new uts(lg_cur, lg_nom, resize_factor::X1, 1.0f, theta, seed, std::allocator<uint64_t>()); }
+WRAP void w_uts_delete(uts* s) { delete s; }
+WRAP void w_uts_set_slot(uts* s, uint32_t i, uint64_t v) { s->table_.entries_[i] = v; }
+WRAP void w_uts_set_num(uts* s, uint32_t n) { s->table_.num_entries_ = n; }
+WRAP void w_uts_set_empty(uts* s, uint8_t e) { s->table_.is_empty_ = e; }
+WRAP uint32_t w_uts_find(const uts* s, uint64_t key, int* found) { auto r = s->table_.find(key); *found = r.second; return (uint32_t)(r.first - s->table_.entries_); }
 // union (public builder)
-W tun* w_tu_new(uint8_t lg_k, uint64_t seed) { try { return new tun(tun::builder().set_lg_k(lg_k).set_seed(seed).build()); } catch (...) { return nullptr; } }
-W void w_tu_delete(tun* u) { delete u; }
-W int w_tu_update_c(tun* u, const cts* s) { try { u->update(*s); return 0; } catch (...) { return 1; } }
-W int w_tu_update_u(tun* u, const uts* s) { try { u->update(*s); return 0; } catch (...) { return 1; } }
-W cts* w_tu_result(const tun* u, uint8_t ordered) { try { return new cts(u->get_result(ordered)); } catch (...) { return nullptr; } }
-W int w_tu_reset(tun* u) { try { u->reset(); return 0; } catch (...) { return 1; } }
+WRAP tun* w_tu_new(uint8_t lg_k, uint64_t seed) { try { return new tun(tun::builder().set_lg_k(lg_k).set_seed(seed).build()); } catch (...) { return nullptr; } }
+WRAP void w_tu_delete(tun* u) { delete u; }
+WRAP int w_tu_update_c(tun* u, const cts* s) { try { u->update(*s); return 0; } catch (...) { return 1; } }
+WRAP int w_tu_update_u(tun* u, const uts* s) { try { u->update(*s); return 0; } catch (...) { return 1; } }
+WRAP cts* w_tu_result(const tun* u, uint8_t ordered) { try { return new cts(u->get_result(ordered)); } catch (...) { return nullptr; } }
+WRAP int w_tu_reset(tun* u) { try { u->reset(); return 0; } catch (...) { return 1; } }
 // unit-level union state (private): table below the public minimum so that get_result has to trim
-W tun* w_tu_new_unit(uint8_t lg_cur, uint8_t lg_nom, uint64_t theta, uint64_t seed) { return new tun(lg_cur, lg_nom, resize_factor::X1, 1.0f, theta, seed, std::allocator<uint64_t>()); }
-W void w_tu_set_slot(tun* u, uint32_t i, uint64_t v) { u->state_.table_.entries_[i] = v; }
-W void w_tu_set_state(tun* u, uint32_t num, uint8_t is_empty, uint64_t union_theta) { u->state_.table_.num_entries_ = num; u->state_.table_.is_empty_ = is_empty; u->state_.union_theta_ = union_theta; }
-W uint32_t w_tu_find(const tun* u, uint64_t key, int* found) { auto r = u->state_.table_.find(key); *found = r.second; return (uint32_t)(r.first - u->state_.table_.entries_); }
+WRAP tun* w_tu_new_unit(uint8_t lg_cur, uint8_t lg_nom, uint64_t theta, uint64_t seed) { return new tun(lg_cur, lg_nom, resize_factor::X1, 1.0f, theta, seed, std::allocator<uint64_t>()); }
+WRAP void w_tu_set_slot(tun* u, uint32_t i, uint64_t v) { u->state_.table_.entries_[i] = v; }
+WRAP void w_tu_set_state(tun* u, uint32_t num, uint8_t is_empty, uint64_t union_theta) { u->state_.table_.num_entries_ = num; u->state_.table_.is_empty_ = is_empty; u->state_.union_theta_ = union_theta; }
+WRAP uint32_t w_tu_find(const tun* u, uint64_t key, int* found) { auto r = u->state_.table_.find(key); *found = r.second; return (uint32_t)(r.first - u->state_.table_.entries_); }
 // intersection
-W tin* w_ti_new(uint64_t seed) { return new tin(seed); }
-W void w_ti_delete(tin* t) { delete t; }
-W int w_ti_update_c(tin* t, const cts* s) { try { t->update(*s); return 0; } catch (...) { return 1; } }
-W int w_ti_update_u(tin* t, const uts* s) { try { t->update(*s); return 0; } catch (...) { return 1; } }
-W uint8_t w_ti_has_result(const tin* t) { return t->has_result(); }
-W cts* w_ti_result(const tin* t, uint8_t ordered) { try { return new cts(t->get_result(ordered)); } catch (...) { return nullptr; } }
+WRAP tin* w_ti_new(uint64_t seed) { return new tin(seed); }
+WRAP void w_ti_delete(tin* t) { delete t; }
+WRAP int w_ti_update_c(tin* t, const cts* s) { try { t->update(*s); return 0; } catch (...) { return 1; } }
+WRAP int w_ti_update_u(tin* t, const uts* s) { try { t->update(*s); return 0; } catch (...) { return 1; } }
+WRAP uint8_t w_ti_has_result(const tin* t) { return t->has_result(); }
+WRAP cts* w_ti_result(const tin* t, uint8_t ordered) { try { return new cts(t->get_result(ordered)); } catch (...) { return nullptr; } }
 // a-not-b
-W cts* w_anb_cc(uint64_t seed, const cts* a, const cts* b, uint8_t ordered) { try { theta_a_not_b x(seed); return new cts(x.compute(*a, *b, ordered)); } catch (...) { return nullptr; } }
-W cts* w_anb_uc(uint64_t seed, const uts* a, const cts* b, uint8_t ordered) { try { theta_a_not_b x(seed); return new cts(x.compute(*a, *b, ordered)); } catch (...) { return nullptr; } }
-W cts* w_anb_cu(uint64_t seed, const cts* a, const uts* b, uint8_t ordered) { try { theta_a_not_b x(seed); return new cts(x.compute(*a, *b, ordered)); } catch (...) { return nullptr; } }
+WRAP cts* w_anb_cc(uint64_t seed, const cts* a, const cts* b, uint8_t ordered) { try { theta_a_not_b x(seed); return new cts(x.compute(*a, *b, ordered)); } catch (...) { return nullptr; } }
+WRAP cts* w_anb_uc(uint64_t seed, const uts* a, const cts* b, uint8_t ordered) { try { theta_a_not_b x(seed); return new cts(x.compute(*a, *b, ordered)); } catch (...) { return nullptr; } }
+WRAP cts* w_anb_cu(uint64_t seed, const cts* a, const uts* b, uint8_t ordered) { try { theta_a_not_b x(seed); return new cts(x.compute(*a, *b, ordered)); } catch (...) { return nullptr; } }
